@@ -303,7 +303,8 @@ def argStepTop (mk : Text → Bool → Bool → Bool → Res Term) (ch : Char) (
   else if ch == '.' then .ok { st.push ch with hasPeriod := true }
   else if ch == '\\' then
     -- escape character: the next character is taken as it is; at the end the backslash itself
-    (if rest.isEmpty then .ok (st.push ch) else .ok { st with esc := true })
+    -- (after repair D19: an argument with an escape is not a number)
+    (if rest.isEmpty then .ok { st.push ch with hasNonDigit := true } else .ok { st with esc := true, hasNonDigit := true })
   else if ch == '"' then .ok { st.push ch with openQuote := true, numQuotes := st.numQuotes + 1 }
   else .ok { st.push ch with hasNonDigit := st.hasNonDigit || !isWs ch }
 
@@ -403,6 +404,27 @@ def termFlags (chrs : Text) : Bool × Bool × Bool :=
   let signOK : Bool := chrs.length > 1 && isDigit ((chrs.drop 1).head?.getD 'x')
   flagLoop signOK chrs 0 (false, false, false)
 
+/-- `unescape` (repair D19): outside quotes, parentheses and brackets a backslash is dropped and the character
+    after it is taken as it is; a backslash at the end stays. -/
+def unescLoop : Text → Int → Int → Bool → Text
+  | [], _, _, _ => []
+  | ch :: rest, round, square, oq =>
+    if oq then ch :: unescLoop rest round square (!(ch == '"'))
+    else if ch == '[' then ch :: unescLoop rest round (square + 1) false
+    else if ch == ']' then ch :: unescLoop rest round (square - 1) false
+    else if ch == '(' then ch :: unescLoop rest (round + 1) square false
+    else if ch == ')' then ch :: unescLoop rest (round - 1) square false
+    else if round == 0 && square == 0 then
+      if ch == '"' then ch :: unescLoop rest round square true
+      else if ch == '\\' then
+        match rest with
+        | c :: rest' => c :: unescLoop rest' round square false
+        | [] => [ch]
+      else ch :: unescLoop rest round square false
+    else ch :: unescLoop rest round square false
+
+def unescape (s : Text) : Text := unescLoop s 0 0 false
+
 mutual
 /-- `parse_term` -/
 def parseTerm (po : POps) : Nat → Text → Res Term
@@ -421,9 +443,8 @@ def parseTerm (po : POps) : Nat → Text → Res Term
               .ok (.func name (.cons l (.cons r .nil)))
     else
       let fl := termFlags s
-      let s' := match s with
-        | ['\\', c] => [c]
-        | _ => s
+      -- after repair D19: escaping backslashes are removed the way parse_arguments removes them
+      let s' := if s.contains '\\' then unescape s else s
       makeTerm po f s' fl.1 fl.2.1 fl.2.2
 /-- `make_term` -/
 def makeTerm (po : POps) : Nat → Text → Bool → Bool → Bool → Res Term
